@@ -38,7 +38,8 @@ RULE = (
     "segment group, segment, free-text element and value-pool entry; one planted invalid expression each, family drawn "
     "from 10 invalid-expression families incl. an invalid part among several modal-mark parts, an invalid composition "
     "hidden inside a package, a package as operand), indices beyond the "
-    "number of positions plant 2-3 faults at sampled positions; each case runs once under a PRF-chosen latency profile. "
+    "number of positions plant 2-3 faults at sampled positions; 6 % of the cases with at least five positions plant "
+    "5 up to all positions at once (half of them: every position of the AHB); each case runs once under a PRF-chosen latency profile. "
     "non-trivial iff at least one planted node was actually reached (reported, i.e. not pruned below a forbidden "
     "parent; for value-pool entries: the pool has several entries and was evaluated); distinct = distinct "
     "(AHB, planted set, event log) digests among those"
@@ -150,6 +151,13 @@ def generate(seed, tier="quick"):
     else:
         count = min(len(positions), rnd.choice([2, 2, 3]))
         chosen = sorted(rnd.sample(positions, count), key=positions.index)
+    mass = rng(seed, "c16-mass")
+    if mass.random() < 0.06 and len(positions) >= 5:
+        # "all subsets of nodes": many simultaneous faults, up to every node of the AHB (the other variants plant at
+        # most four) - a handler that leaks something per fault (a slot, a lock, a counter) needs many of them in one
+        # run; an own PRF stream, so that the scenarios of all other seeds stay what they were
+        count = mass.choice([len(positions), len(positions), mass.randint(5, len(positions)), mass.randint(5, len(positions))])
+        chosen = sorted(mass.sample(positions, count), key=positions.index)
     planted = []
     for position in chosen:
         expression, family = _gen_planted_expression(rnd, universe, cer)
@@ -269,7 +277,11 @@ def _judge(request, outcome, reference, reasons, verdict):
     planted = op["planted"]
     nodes = [n for n, _ in walk(op["ahb"])]
     families = sorted({p["family"] for p in planted})
-    _bump(verdict, f"planted_{len(planted)}")
+    _bump(verdict, f"planted_{len(planted)}" if len(planted) < 5 else "planted_5_or_more")
+    if len(planted) >= 8:
+        _bump(verdict, "planted_8_or_more")
+    if len(planted) == len(positions_of(op["ahb"])):
+        _bump(verdict, "planted_at_every_position")
     # the planted expressions are invalid by construction (structural criterion, sim/gen_expr.gen_invalid); the
     # reason text is what the real evaluation of the expression alone reports - if that evaluation does not even
     # notice the invalidity, only "optional with a non-empty hint" can be demanded of the node
